@@ -95,7 +95,12 @@ def _variants(rng, n, n_all, n_rand, routes):
             rng.shuffle(o)
             orders.append(o)
     for o in orders:
-        out.append({'order': o, 'parts': [n] if rng.random() < 0.7 else _partition(rng, n), 'route': 'input'})
+        # the bulk of the permutations reuses the parsed statement objects (`loader.statements`, the state the
+        # property names); one in eight goes through the SQL text again, possibly split over several input calls
+        if rng.random() < 0.125:
+            out.append({'order': o, 'parts': [n] if rng.random() < 0.5 else _partition(rng, n), 'route': 'input'})
+        else:
+            out.append({'order': o, 'parts': [n], 'route': 'stmts'})
     for r in routes:
         o = list(range(n))
         if rng.random() < 0.7:
@@ -230,10 +235,30 @@ def _parts(stmts, v):
     return out
 
 
-def _load(stmts, v, mine):
+def _parsed(stmts, cache):
+    """the loader's own statement objects, one per generated statement (parsed once per case)"""
+    if 'objs' not in cache:
+        l = _x.ModelLoader()
+        objs = []
+        for s in stmts:
+            n = len(l.statements)
+            l.input(G.stmt_text(s))
+            assert len(l.statements) == n + 1
+            objs.append(l.statements[n])
+        cache['objs'] = objs
+        cache['loader'] = _x.ModelLoader()
+    return cache['objs'], cache['loader']
+
+
+def _load(stmts, v, mine, cache=None):
     """-> (metamodel, order in which the loader saw the statements); may raise a documented exception"""
-    parts = _parts(stmts, v)
     route = v['route']
+    if route == 'stmts':
+        objs, l = _parsed(stmts, cache if cache is not None else {})
+        del l.statements[:]
+        l.statements.extend(objs[i] for i in v['order'])
+        return l.build_metamodel(), v['order']
+    parts = _parts(stmts, v)
     if route == 'input':
         l = _x.ModelLoader()
         for p in parts:
@@ -527,6 +552,8 @@ def _api_guard(stmts, raw, expected):
     """the guards of the statement: None if they hold, else the reason the API route is not held to D"""
     for ai, pairs in expected.items():
         a = stmts[ai]
+        if not a['skeys'] or not a['tkeys']:
+            return 'empty-keys'      # there is no referential value to create the row with
         if 'M' not in a['scard']:
             ts = [t for (_, t) in pairs]
             if len(ts) != len(set(ts)):
@@ -629,12 +656,13 @@ def run_impl(case):
     base_dump = None
     base_order = None
     stats = {'variants': 0, 'fam_' + case['fam']: 1}
+    cache = {}
     for n, v in enumerate(case['variants']):
         stats['variants'] += 1
         stats['route_' + v['route']] = stats.get('route_' + v['route'], 0) + 1
         bp = v['route'].startswith('bp-')
         try:
-            m, seen_order = _load(stmts, v, mine)
+            m, seen_order = _load(stmts, v, mine, cache)
             v = dict(v, order=seen_order)
             dump = _dump(m, mine if bp else None)
         except _DOC as e:
@@ -645,7 +673,8 @@ def run_impl(case):
                      % (type(e).__name__, e, v['route'], v['parts'], G.text_of([stmts[i] for i in v['order']])))
         if m is not None:
             _check_exact(stmts, v, m, dump, expected, fail)
-            _check_navigation(stmts, v, m, expected, fail, mine)
+            if v['route'] != 'stmts' or n % 16 == 1:
+                _check_navigation(stmts, v, m, expected, fail, mine)
         iso = _iso(stmts, v['order'], dump)
         if base_iso is None:
             base_iso, base_dump, base_order = iso, dump, v['order']
